@@ -253,6 +253,7 @@ def run(out, tier):
                            rejections_confirmed=cnt.get("rejections_confirmed", 0), exact_block_end_cases=cnt.get("exactBlockEnd", 0),
                            mismatches=cnt.get("mismatches", 0), generator=rg.summary())
     # 3. real grammar pools: T (behaviour) and the event streams for V
+    os.makedirs(os.path.join(C.BUILD, "tlc"), exist_ok=True)
     tdir = tempfile.mkdtemp(prefix="c16.", dir=os.path.join(C.BUILD, "tlc"))
     try:
         gc, samples, traces, _ = _run_pools(out, exe, tdir)
@@ -301,6 +302,7 @@ def replay(out, path):
         for m in mism:
             out.disagree(m["cls"], m["case"], m.get("why", ""))
     elif case.get("mode") in ("G", "V"):
+        os.makedirs(os.path.join(C.BUILD, "tlc"), exist_ok=True)
         tdir = tempfile.mkdtemp(prefix="c16r.", dir=os.path.join(C.BUILD, "tlc"))
         try:
             _, _, traces, _ = _run_pools(out, exe, tdir, only=case["grammar"])
@@ -313,8 +315,8 @@ def replay(out, path):
 
 
 # Mutants demonstrated with ./bin/mutant-run C16 mutants/C16/*.diff (all DETECTED in the quick tier):
-#   attdef-load-drop.diff      SchemaAttDef::serialize: fElemId not read in load mode            -> V (load stream diverges inside SchemaAttDef)
-#   cti-store-swap.diff        ComplexTypeInfo::serialize: two members swapped in store mode     -> V
-#   level-check-removed.diff   deserializeGrammars: level comparison removed                     -> T-pool (level)
-#   shared-object-dup.diff     XSerializeEngine::write: back reference never used for one class  -> T-engine / V
-#   elemdecl-both-drop.diff    field dropped from BOTH directions (only the behaviour level sees it)
+#   attdef-load-drop.diff      SchemaAttDef::serialize: fPSVIScope not read in load mode          -> V (load stream diverges inside SchemaAttDef) / T-pool
+#   cti-store-swap.diff        ComplexTypeInfo::serialize: fBlockSet/fFinalSet swapped in store mode -> T-pool (XSModel, restore-equivalence)
+#   level-check-weakened.diff  deserializeGrammars: level comparison accepts level+1              -> T-pool (level)
+#   elemdecl-both-drop.diff    SchemaElementDecl::serialize: fDefaultValue dropped from BOTH directions -> T-pool only (instances with element defaults)
+#   engine-fill-boundary.diff  checkAndFillBuffer refills when an item ends exactly at the block end -> T-engine
